@@ -386,6 +386,30 @@ impl<'a> Model<'a> {
                 Hook::Str(s) => Ok(Ok(Val::S(s.to_string()))),
                 other => m.default_hook(&other),
             }),
+            Ty::Flag => self.route(it, &mut |m, h| match h {
+                Hook::Word => Ok(Ok(Val::B(true))),
+                other => m.default_hook(&other),
+            }),
+            Ty::PathList => self.route(it, &mut |m, h| match h {
+                Hook::List(items) => {
+                    let mut out = Vec::new();
+                    for n in items {
+                        match n {
+                            Nested::Item(x) if matches!(x.form, Form::Word) => out.push(Val::S(strip_colon(&x.name).to_string())),
+                            Nested::Item(x) => {
+                                m.mistake("value_rejected");
+                                return Ok(Err(vec![leaf("type", "Unexpected type `non-word`", SpanExp::Within(x.r_item))]));
+                            }
+                            Nested::Lit { range, .. } => {
+                                m.mistake("value_rejected");
+                                return Ok(Err(vec![leaf("type", "Unexpected type `non-word`", SpanExp::Within(*range))]));
+                            }
+                        }
+                    }
+                    Ok(Ok(Val::Seq(out)))
+                }
+                other => m.default_hook(&other),
+            }),
             Ty::Any(tag) => {
                 self.unpredictable = true;
                 self.mistakes.push("probe:builtin_conversion_exercised");
@@ -443,6 +467,7 @@ impl<'a> Model<'a> {
                 }
             }
             Ty::Opt(_) => Some(Val::None),
+            Ty::Flag => Some(Val::B(false)),
             Ty::Boxed(t) | Ty::DResult(t) => self.from_none(t),
             Ty::Recv(name) => {
                 let d = self.recvs.get(name).expect("receiver in schema").clone();
